@@ -254,6 +254,55 @@ class Rat:
         return s
 
 
+def pystr(r):
+    """python source text of a polynomial / rational function over plain symbols (what str() of the corresponding sympy expression
+    re-parses to): used where the analysed code formats an expression into a string and evaluates the string again"""
+    def coef(c):
+        return str(c.numerator) if c.denominator == 1 else "(%d/%d)" % (c.numerator, c.denominator)
+
+    def mono(m):
+        out = []
+        for a, e in m:
+            if a[0] != "sym":
+                raise Undecided("text form of a non-polynomial expression")
+            out.append(a[1] if e == 1 else "%s**%d" % (a[1], e))
+        return "*".join(out)
+
+    def poly(p):
+        if not p:
+            return "0"
+        terms = []
+        for m, c in sorted(p.items(), key=repr):
+            mm = mono(m)
+            terms.append(coef(c) if not mm else (mm if c == 1 else "%s*%s" % (coef(c), mm)))
+        return " + ".join(terms)
+    s_ = poly(r.num)
+    if r.den != ONE:
+        return "(%s)/(%s)" % (s_, poly(r.den))
+    return "(%s)" % s_ if len(r.num) > 1 else s_
+
+
+def substitute(r, name, value):
+    """r with the symbol `name` replaced by the expression `value` (polynomial atoms only)"""
+    r, value = lift(r), lift(value)
+    key = ("sym", name)
+    for a in r.atoms():
+        if a != key and a[0] != "sym" and r.depends_on(name):
+            arg = _ATOM_ARGS.get(a)
+            if arg is not None and arg.depends_on(name):
+                raise Undecided("substitution inside a function argument")
+
+    def poly(p):
+        tot = Rat.const(0)
+        for m, c in p.items():
+            term = Rat.const(c)
+            for a, e in m:
+                term = term * ((value ** e) if a == key else Rat({((a, e),): Fraction(1)}))
+            tot = tot + term
+        return tot
+    return poly(r.num) / poly(r.den)
+
+
 def _atom_str(a):
     if a[0] == "sym":
         return a[1]
